@@ -1,4 +1,6 @@
-use crate::solvers::common::{DisplayValue, LpSolution, SolverError, format_float};
+use crate::solvers::common::{
+    DisplayValue, LpSolution, SolutionStatus, SolverError, format_float,
+};
 use crate::transformers::LinearModel;
 use crate::{
     Assignment, Comparison, OptimizationType, VariableType, make_constraints_map_from_assignment,
@@ -192,6 +194,14 @@ pub fn solve_milp_lp_problem_with(
 
     match problem.solve_with(solve_options) {
         Ok(s) => {
+            // MicroLP does not treat a fired limit as an error: the status says whether the
+            // values are a proven optimum, an unproven incumbent, or only the working point
+            // of an interrupted search (possibly fractional and infeasible).
+            let status = match s.status() {
+                microlp::Status::Optimal => SolutionStatus::Optimal,
+                microlp::Status::Feasible => SolutionStatus::Feasible,
+                microlp::Status::Interrupted => return Err(SolverError::LimitReached),
+            };
             let value_of = |(positive, negative): &(microlp::Variable, Option<microlp::Variable>)| {
                 s.var_value(*positive) - negative.map_or(0.0, |negative| s.var_value(negative))
             };
@@ -220,7 +230,8 @@ pub fn solve_milp_lp_problem_with(
                 assignment,
                 s.objective() + lp.objective_offset(),
                 constraints,
-            ))
+            )
+            .with_status(status))
         }
         Err(e) => Err(match e {
             Error::InternalError(s) => SolverError::Other(s),
